@@ -277,6 +277,13 @@ func timeoutGroup(thorough bool) *Group {
 	// environment timeouts are integers in milliseconds
 	g.Spec = []Alt{absent, et(1, "29000", 29*time.Second), et(-1, "41000", 41*time.Second), envBad("invalid", 2, "abc"), envBad("empty", -1, "")}
 	g.Gen = []Alt{absent, et(1, "53000", 53*time.Second), et(-1, "67000", 67*time.Second), envBad("invalid", 2, "abc"), envBad("empty", -1, "")}
+	// numeric text: the variables hold decimal millisecond counts; spellings that only a base-0 /
+	// Go-literal parser accepts are unparsable (a zero-padded decimal is left out: the SDK alphabets
+	// treat it as "decimal meaning or ignored", which this reference cannot express)
+	for _, bad := range []string{"0x7530", "29_000"} {
+		g.Spec = append(g.Spec, envBad("invalid(numeric literal)", -1, bad))
+		g.Gen = append(g.Gen, envBad("invalid(numeric literal)", -1, bad))
+	}
 	if thorough {
 		for _, bad := range []string{"10s", "1.5", "99999999999999999999"} {
 			g.Spec = append(g.Spec, envBad("invalid", -1, bad))
